@@ -287,7 +287,10 @@ where
   T: Send + Clone + 'static,
 {
   fn clone(&self) -> Self {
-    if let Some(dispatcher) = self.dispatcher.upgrade() {
+    // A receiver that was closed no longer counts as a receiver; its clone is a dead receiver too.
+    if !self.closed.load(Ordering::Acquire)
+      && let Some(dispatcher) = self.dispatcher.upgrade()
+    {
       dispatcher.receiver_count.fetch_add(1, Ordering::Relaxed);
 
       let mailbox_capacity = self.consumer.capacity();
